@@ -315,7 +315,7 @@ class StubFTPClient:
         pass
 
 
-def build_ftp(client, filters=None, glob=True, table=None, preserve_permissions=False):
+def build_ftp(client, filters=None, glob=True, table=None, preserve_permissions=False, retr_symlinks=True):
     from wpull.processor.ftp import FTPProcessor, FTPProcessorFetchParams
     from wpull.processor.rule import FetchRule, ResultRule
     from wpull.writer import NullWriter
@@ -336,6 +336,6 @@ def build_ftp(client, filters=None, glob=True, table=None, preserve_permissions=
     f['FileWriter'] = NullWriter()
     f['FetchRule'] = FetchRule(url_filter=F.DemuxURLFilter(filters) if filters is not None else None)
     f['ResultRule'] = ResultRule(waiter=LinearWaiter(wait=0, max_wait=0), statistics=StubStatistics())
-    proc = FTPProcessor(client, FTPProcessorFetchParams(glob=glob, preserve_permissions=preserve_permissions))
+    proc = FTPProcessor(client, FTPProcessorFetchParams(glob=glob, preserve_permissions=preserve_permissions, retr_symlinks=retr_symlinks))
     proc._listing_cache = {}      # LRUCache reads time.time() (symbolic under CrossHair); a dict has the same mapping interface
     return types.SimpleNamespace(app=app, table=table, proc=proc, factory=f, client=client)
